@@ -670,6 +670,7 @@ package p9
 //@   requires[C05,C16] @callback-runs-with-a-reference-held owed(ref) >= 1
 //@   requires[C09] InamesSafe()
 //@   ensures[C09] InamesSafe()
+//@   panic_ensures[C09] InamesSafe()
 //@   requires[C05,C15] owedNonNeg()
 //@   ensures[C05,C15] @callback-leaves-held-references-alone owedNonNeg() && sameOwed()
 //@   modifies type:fidRef.parent, type:fidRef.refs, maps(map[*fidRef]string), maps(map[string]map[*fidRef]struct{}), maps(map[*fidRef]struct{}), $n.File.Renamed, $n.File.Close, $closeerr, $ncalls, $owed, $own
